@@ -74,10 +74,12 @@ def specs(tier):
     base = [(0, "<dt>1</dt>", 1.0, 4), (0, "<dt>0.5</dt>", 0.5, 5), (0, "<dt>0.1</dt>", 0.1, 6), (1, "<dt>0.25</dt>", 0.25, 5),
             (0, '<dt reciprocal="true">4</dt>', 0.25, 5), (0, "<dt>0.2</dt>", 0.2, 6),
             # start times that are not multiples of dt / have more decimals than dt
-            (0.5, "<dt>1</dt>", 1.0, 4), (0.3, "<dt>0.1</dt>", 0.1, 5), (2.5, "<dt>0.5</dt>", 0.5, 4)]
+            (0.5, "<dt>1</dt>", 1.0, 4), (0.3, "<dt>0.1</dt>", 0.1, 5), (2.5, "<dt>0.5</dt>", 0.5, 4),
+            # a reciprocal dt without a finite decimal expansion (grid 0, 1/3, 2/3, ...)
+            (0, '<dt reciprocal="true">3</dt>', 1.0 / 3.0, 6)]
     if tier == "thorough":
         base += [(0, "<dt>0.125</dt>", 0.125, 8), (0, "<dt>0.05</dt>", 0.05, 10), (0, "<dt>0.04</dt>", 0.04, 10),
-                 (1, "<dt>0.1</dt>", 0.1, 10), (0, "<dt>0.025</dt>", 0.025, 10), (0, '<dt reciprocal="true">3</dt>', 1.0 / 3.0, 6),
+                 (1, "<dt>0.1</dt>", 0.1, 10), (0, "<dt>0.025</dt>", 0.025, 10), (1, '<dt reciprocal="true">3</dt>', 1.0 / 3.0, 6),
                  (1, '<dt reciprocal="true">8</dt>', 0.125, 8), (0, '<dt reciprocal="true">10</dt>', 0.1, 10), (1, "<dt>0.2</dt>", 0.2, 10)]
     return base
 
